@@ -308,6 +308,21 @@ func init() {
 		s, p := x.term(args[0]), x.term(args[1])
 		return x.mkSym(types.String, tb.Ite(tb.SuffixOf(p, s), tb.Substr(s, tb.IntC(0), tb.Sub(tb.StrLen(s), tb.StrLen(p))), s))
 	}
+	symModels["strings.TrimSpace"] = func(fr *frame, args []value) value {
+		// s = pre ++ r ++ post with pre, post white space and r neither starting nor ending with it
+		// (ASCII white space; strings with other Unicode spaces at the ends are outside the model)
+		x, tb := fr.i.x, fr.i.x.tb
+		s := x.term(args[0])
+		const ws = `(re.union (str.to_re " ") (str.to_re "\u{9}") (str.to_re "\u{a}") (str.to_re "\u{b}") (str.to_re "\u{c}") (str.to_re "\u{d}"))`
+		pre, r, post := x.fresh("tspre", smt.Str), x.fresh("tsr", smt.Str), x.fresh("tspost", smt.Str)
+		x.addDef(tb.Eq(s, tb.Concat(pre, r, post)))
+		x.addDef(tb.InRe(pre, "(re.* "+ws+")"))
+		x.addDef(tb.InRe(post, "(re.* "+ws+")"))
+		x.addDef(tb.Not(tb.InRe(r, "(re.++ "+ws+" re.all)")))
+		x.addDef(tb.Not(tb.InRe(r, "(re.++ re.all "+ws+")")))
+		x.noteAssume("strings.TrimSpace model: ASCII white space only")
+		return x.mkSym(types.String, r)
+	}
 	symModels["strings.ReplaceAll"] = func(fr *frame, args []value) value {
 		x, tb := fr.i.x, fr.i.x.tb
 		return x.mkSym(types.String, tb.ReplaceAll(x.term(args[0]), x.term(args[1]), x.term(args[2])))
